@@ -250,7 +250,7 @@ STREAMS = {
     "msgtype": {"n": {"quick": 1, "thorough": 1}, "nontrivial": None},
     "decode": {"n": {"quick": 4000, "thorough": 150000}, "nontrivial": nt_decode},
     "decode-enum": {"n": {"quick": 11, "thorough": 16}, "nontrivial": nt_decode},
-    "build": {"n": {"quick": 500, "thorough": 2000}, "nontrivial": nt_build},
+    "build": {"n": {"quick": 500, "thorough": 1000}, "nontrivial": nt_build},
     "agent-seq": {"n": {"quick": 3, "thorough": 4}, "nontrivial": None},
     "attrs-valid": {"n": {"quick": 1500, "thorough": 60000}, "nontrivial": nt_any},
     "attrs-malformed": {"n": {"quick": 1, "thorough": 30}, "nontrivial": nt_any},
